@@ -33,10 +33,20 @@ func (pass *DisjunctionWithNullToOptional) Process(schemas []*ast.Schema) ([]*as
 	return visitor.VisitSchemas(schemas)
 }
 
-func (pass *DisjunctionWithNullToOptional) processDisjunction(_ *Visitor, _ *ast.Schema, def ast.Type) (ast.Type, error) {
-	disjunction := def.AsDisjunction()
+func (pass *DisjunctionWithNullToOptional) processDisjunction(visitor *Visitor, schema *ast.Schema, def ast.Type) (ast.Type, error) {
+	var err error
 
+	disjunction := def.AsDisjunction()
 	if len(disjunction.Branches) != 2 || !disjunction.Branches.HasNullType() {
+		// other unions are left as they are, but their branches might contain
+		// `type | null` unions.
+		for i, branch := range def.Disjunction.Branches {
+			def.Disjunction.Branches[i], err = visitor.VisitType(schema, branch)
+			if err != nil {
+				return ast.Type{}, err
+			}
+		}
+
 		return def, nil
 	}
 
@@ -45,5 +55,6 @@ func (pass *DisjunctionWithNullToOptional) processDisjunction(_ *Visitor, _ *ast
 	finalType.Nullable = true
 	finalType.AddToPassesTrail(fmt.Sprintf("DisjunctionWithNullToOptional[%[1]s|null → %[1]s?]", ast.TypeName(finalType)))
 
-	return finalType, nil
+	// the type might itself contain `type | null` unions (ex: `[...(T | null)] | null`)
+	return visitor.VisitType(schema, finalType)
 }
